@@ -97,6 +97,14 @@ def run_case(spec, inputs=None):
     finally:
         shutil.rmtree(scratch, ignore_errors=True)
     sigs = []
+    errs = {(t.get("exc_type"), (t.get("exc_msg") or "")[:60]) for t in traces if t["outcome"] == "error"}
+    if errs and all(t["outcome"] == "error" for t in traces) and len(errs) == 1:
+        # EVERY run of this child - whatever it was asked to persist, even nothing - ends in the same error inside the
+        # model: this election cannot be estimated (a singular design, say), which is not a statement about
+        # persistence.  Not judged; counted, and the whole check is inconclusive if that happens to many children.
+        out["counters"]["children_whose_election_cannot_be_estimated"] = 1
+        out["sets"]["unusable_elections"] = [[spec["estimator"], list(errs)[0][0], list(errs)[0][1]]]
+        return out
     for tr in traces:
         vs = check_trace(tr, spec)
         out["violations"] += vs
@@ -219,6 +227,8 @@ def finalize(agg):
         return "both gate outcomes were not observed", {}
     if not c.get("put_events") or not c.get("file_events"):
         return "no put / file event observed at all", {}
+    if c.get("children_whose_election_cannot_be_estimated", 0) * 4 > c.get("cases_total", 10 ** 9):
+        return "more than a quarter of the children got an election that cannot be estimated at all", {}
     return None, {}
 
 
@@ -309,6 +319,7 @@ def child(spec):
     if est == "bootstrap":
         o["B"] = 10
         o["lambda_"] = 1.0
+    o["rare_options"] = False  # persistence is the subject here, not the corners of the bootstrap's options
     if spec.get("inputs") == "cli":  # the mock live feed of the command line is cut from a file with dem / gop / turnout
         o.update(allow_pointer_config=False, extra_state_rows=False, rare_options=False)
     el, feed, status, call = cases_mod.build(spec["seed"], PROPERTY, 1000 * spec["i"] + 1, o)
